@@ -74,7 +74,8 @@ const (
 // IsGREASEID returns true if id is a valid GREASE ID for
 // transport parameters.
 func (GREASETransportParameter) IsGREASEID(id uint64) bool {
-	return id >= 27 && (id-27)%31 == 0
+	// (a QUIC varint carries at most 62 bits: larger values of the same shape are not IDs)
+	return id >= 27 && (id-27)%31 == 0 && id <= 0x3FFFFFFFFFFFFFFF
 }
 
 // GetGREASEID returns a random valid GREASE ID for transport parameters.
